@@ -129,6 +129,10 @@ pub mod verif_pub {
     pub fn reader_over(base: *mut u8) -> ShmReader {
         crate::reader::reader_for_harness(base)
     }
+    /// a writer over a harness-owned 72-byte area; the caller must mem::forget it
+    pub fn writer_over(base: *mut u8) -> crate::writer::ShmWriter {
+        crate::writer::writer_for_harness(base)
+    }
     pub fn record(f: (i64, i64, i64, i64, i64, u32, u32, i32)) -> ClockErrorBound {
         ClockErrorBound {
             as_of: libc::timespec { tv_sec: f.0, tv_nsec: f.1 },
@@ -157,7 +161,19 @@ pub(crate) fn reader_for_harness(base: *mut u8) -> ShmReader {
         snapshot_gen: 0,
     }
 }
-""", why="cfg(kani)-only accessor/constructor (ShmReader's fields are private to reader.rs)")],
+""", why="cfg(kani)-only accessor/constructor (ShmReader's fields are private to reader.rs)"),
+                  Edit("clock-bound-shm/src/writer.rs", None, "append", """
+#[cfg(kani)]
+pub(crate) fn writer_for_harness(base: *mut u8) -> ShmWriter {
+    ShmWriter {
+        segsize: 72,
+        addr: base.cast(),
+        version: unsafe { base.add(12) }.cast(),
+        generation: unsafe { base.add(14) }.cast(),
+        ceb: unsafe { base.add(16) }.cast(),
+    }
+}
+""", why="cfg(kani)-only constructor (ShmWriter's fields are private to writer.rs)")],
     },
     "shm_now": {
         "crate": "clock-bound-shm", "features": "writer",
@@ -224,6 +240,11 @@ pub(crate) fn reader_for_harness(base: *mut u8) -> ShmReader {
         "files": [("clock-bound-d/src/verif_search_restart.rs", "harness/clock-bound-d/verif_search_restart.rs")],
         "edits": [child_mod_cfg("clock-bound-d/src/shm_writer.rs", "verif_search_restart", "verif_search")],
     },
+    "d_cli_search": {
+        "crate": "clock-bound-d", "features": None,
+        "files": [("clock-bound-d/src/verif_search_cli.rs", "harness/clock-bound-d/verif_search_cli.rs")],
+        "edits": [child_mod_cfg("clock-bound-d/src/main.rs", "verif_search_cli", "verif_search")],
+    },
     "d_extract_search": {
         "crate": "clock-bound-d", "features": None,
         "files": [("clock-bound-d/src/verif_search_extract.rs", "harness/clock-bound-d/verif_search_extract.rs")],
@@ -267,6 +288,26 @@ COMPUTE_SEARCH = {"kind": "search", "crate": "clock-bound-shm", "units": ["shm_c
                   "test": "verif_search_compute"}
 
 
+COMPUTE_CLAUSES = ["C14.compute.no_panic", "C14.compute.malformed", "C14.compute.causality", "C14.compute.ok_otherwise", "C14.compute.blur_is_zero_age",
+                   "C05.compute.symmetric", "C05.compute.normalised", "C05.compute.ordered", "C05.compute.never_less", "C05.compute.not_more",
+                   "C05.compute.zero_age", "C05.compute.never_below_stored_bound",
+                   "C06.compute.status_law", "C06.compute.sync_only_if", "C06.compute.free_only_if", "C06.compute.unknown_sticky",
+                   "C06.compute.void_is_unknown", "C06.compute.passthrough", "C06.compute.decay"]
+
+
+def compute_native(prefixes):
+    """BOUNDED cross-check on every run: the same clauses evaluated on the natively compiled real function (this is
+    also the only check of the float axioms A1/A2 against real IEEE arithmetic)."""
+    return {"kind": "native", "crate": "clock-bound-shm", "units": ["shm_compute_search"], "features": "writer", "test": "verif_search_compute",
+            "bound": "~1.5 M boundary-value combinations (thresholds +/-1 ns, second boundaries, extreme bounds and drift rates) + 400 000 seeded random inputs",
+            "obligations": [c for c in COMPUTE_CLAUSES if c.startswith(tuple(prefixes))]}
+
+
+EXTRACT_NATIVE = {"kind": "native", "crate": "clock-bound-d", "units": ["d_extract_search"], "features": None, "test": "verif_search_extract",
+                  "bound": "README example of either sign, 9 coefficients x 9 exponents boundary grid for the three terms, 2 000 000 seeded random reports; exact i128 oracle",
+                  "obligations": ["C07.extract.body_obligations", "C07.extract.never_negative", "C07.extract.never_smaller_than_the_sum",
+                                  "C07.extract.rounded_up_by_less_than_1ns"]}
+
 NOW_GRP = {"kind": "kani", "crate": "clock-bound-shm", "units": ["shm_now"], "modpath": "verif_now",
            "harnesses": [{"name": "c12_now_reads_realtime_then_monotonic", "file": "harness/clock-bound-shm/verif_now.rs", "replayable": False,
                           "tier": "quick", "timeout": 600}]}
@@ -281,6 +322,7 @@ def compute_groups(pattern, with_now=False):
     ]
     if with_now:
         g.append(NOW_GRP)   # the public wrapper now(): both clocks read, in order, for every record
+    g.append(compute_native([pattern[:3]]))
     return g
 
 
@@ -319,11 +361,13 @@ SNAPSHOT_VERUS = {"kind": "verus", "gen": "snapshot", "obligations": [r"C18\.ver
 OPEN_H = sh("c16_open_any_file", RD, replayable=False, timeout=900)
 PROBE_H = sh("c16_usability_probe_agrees_with_client_open", WR, replayable=False, timeout=900)
 WIPE_NATIVE = {"kind": "native", "crate": "clock-bound-shm", "units": ["shm_wipe_search"], "features": "writer", "test": "verif_search_wipe",
-               "bound": "pre-existing file absent or of every length 0..=200 x 4 fill patterns (zeros, 0xff, counter, valid header with short declared size), on the real file system",
+               "bound": "pre-existing file absent or of every length 0..=200 x 4 fill patterns (zeros, 0xff, counter, valid header with short declared size); restart histories from 10 start "
+                        "generations (odd and even, around the 16-bit wrap) with an attached client, 12 publications each and one run of 70 000; on the real file system",
                "obligations": ["C16.wipe.succeeds_whatever_the_file_contained", "C16.wipe.file_is_exactly_72_bytes", "C16.wipe.magic_first", "C16.wipe.declared_size_72",
                                "C16.wipe.version_0_generation_0", "C16.wipe.record_is_zero", "C16.e2e.new_succeeds_on_any_file",
                                "C16.e2e.client_can_open_after_first_publication", "C16.e2e.client_reads_back_exactly_the_published_record",
-                               "C16.e2e.recreated_file_is_72_bytes"]}
+                               "C16.e2e.recreated_file_is_72_bytes", "C04.e2e.attached_reader_follows_restarted_writer",
+                               "C11.e2e.generation_even_nonzero_after_every_write"]}
 POSIX = "harness/clock-bound-shm/posix_model.c"
 A_POSIX = ("POSIX model (harness/clock-bound-shm/posix_model.c, linked with -Z c-ffi): one file of 0..96 bytes that may be missing, a directory, or fail to map; "
            "open/read/mmap/munmap/close/errno behave as the model says; only the first 24 bytes of content are symbolic, the rest reads as 0")
@@ -350,6 +394,11 @@ A_LEMMA = ("the spec functions of verus/lemmas.rs.tmpl (next_gen_spec, snapshot_
 PHC_NATIVE = {"kind": "native", "crate": "clock-bound-d", "units": ["d_phc_search"], "features": None, "test": "verif_search_phc",
               "bound": "71 values (0, +-small, every power of ten up to 10^18 with its neighbours, 2^32 neighbourhood, 2^40, i64::MIN/MAX) x 4 textual forms, on real files",
               "obligations": ["C07.phc.file_value_returned_exactly", "C13.phc.missing_file_is_an_error"]}
+
+CLI_NATIVE = {"kind": "native", "crate": "clock-bound-d", "units": ["d_cli_search"], "features": None, "test": "verif_search_cli",
+              "target_sel": ("--bin", "clockbound"), "release": True,
+              "bound": "the real clap parser in the release profile: 9 values x 4 spellings of the option (--max-drift-rate N, --max-drift-rate=N, -m N, -mN), option omitted, value 2^32",
+              "obligations": ["C19.cli.option_value_reaches_the_conversion"]}
 
 RESTART_NATIVE = {"kind": "native", "crate": "clock-bound-d", "units": ["d_restart_search"], "features": None, "test": "verif_search_restart",
                   "bound": "8 histories of a first daemon incarnation (never synchronised / synchronised then lost) x 9 sequences of 1-2 non-synchronised outcomes of the restarted daemon, real ShmWriter on a real file",
@@ -386,6 +435,7 @@ PROPS = {
             dict(PGRP, harnesses=[{"name": "c13_poller_iteration", "file": POL, "replayable": False, "tier": "quick", "timeout": 900,
                                    "only": r"C13\.select\.(phc_|report_with|report_without)"}]),
             PHC_NATIVE,
+            EXTRACT_NATIVE,
         ],
     },
     "C08": {
@@ -410,12 +460,14 @@ PROPS = {
                       "clock_bound_d::shm_writer::ShmUpdater::{new, write_clock_error_bound} (drift copied verbatim: C08 obligations)"],
         "assumptions": [A["tools"], A["weaver"],
                         "arithmetic overflow is reported irrespective of build profile; in the release build the same overflow wraps silently, which is the violation the property names",
-                        "unverified glue: main -> thread_manager::run -> shm_writer::run -> ShmUpdater::new pass the u32 by value through three calls"],
+                        "plumbing: shm_writer::run -> ShmUpdater::new -> process_messages is under contract (C19.run.*); main -> thread_manager::run -> (thread spawn) -> shm_writer::run passes the u32 "
+                        "by value through a `move` closure, which is not executed under Kani (no threads) and is read off the source"],
         "trusted": ["harness/clock-bound-d/verif_main.rs.tmpl (wrapper, Cli stand-in with the single field read by the statement)"],
         "groups": [
             {"kind": "kani", "crate": "clock-bound-d", "units": ["d_main"], "modpath": "verif_main",
              "harnesses": [{"name": "c19_main_ppb", "file": "harness/clock-bound-d/verif_main.rs.tmpl", "replayable": True, "timeout": 600}]},
-            dict(DGRP, harnesses=[dh("c08_new_initial_state"), dh("c08_update_step"), dh("c08_missing_step")]),
+            dict(DGRP, harnesses=[dh("c08_new_initial_state"), dh("c08_update_step"), dh("c08_missing_step"), dh("c19_run_hands_the_drift_rate_to_the_updater")]),
+            CLI_NATIVE,
             {"kind": "kani", "crate": "clock-bound-shm", "units": ["shm_layout"], "modpath": "verif_layout",
              "harnesses": [sh("c17_record_constructor_stores_arguments_verbatim", "GEN", obligations=None)]},
         ],
@@ -494,6 +546,7 @@ PROPS = {
         "groups": [dict(SHM_WRITE_GRP, harnesses=[C11_WRITE, sh("c04_new_takeover_or_wipe", WR, replayable=False)]),
                    dict(SHM_WRITE_GRP, c_lib=POSIX, harnesses=[PROBE_H]),
                    dict(SHM_READ_GRP, c_lib=POSIX, harnesses=[OPEN_H]),
+                   WIPE_NATIVE,
                    lemmas(r"C11\.lemma\..*")],
     },
     "C03": {
@@ -565,8 +618,8 @@ PROPS = {
                         "(C13.get_tracking.* + C13.grace.*) and the iteration contract holds for every value of that flag"],
         "trusted": ["harness/clock-bound-d/verif_poller.rs"],
         "groups": [dict(PGRP, harnesses=[{"name": n, "file": POL, "replayable": False, "tier": "quick", "timeout": 900}
-                                         for n in ("c13_poller_iteration", "c13_grace_period_law", "c13_starts_outside_grace",
-                                                   "c13_get_tracking_stamps_only_good_answers")]),
+                                         for n in ("c13_poller_iteration", "c13_second_poll_does_not_depend_on_the_first", "c13_grace_period_law",
+                                                   "c13_starts_outside_grace", "c13_get_tracking_stamps_only_good_answers")]),
                    PHC_NATIVE],
     },
     "C17": {
